@@ -108,6 +108,28 @@ chk('C18', 'model_checking',
     'The instrumenter (go build -overlay, nothing in /repo) rewrites sync.Mutex/RWMutex/WaitGroup and `go` statements of interpreter/... and linter to the scheduler shim, puts scheduling points at the entry of every lifecycle / statement / shared-state function and inside every read-modify-write statement on a field or package variable. sim: every multiset of 2 (<=2 preemptions; thorough 3) and 3 (<=1; thorough 2; thorough also 4 requests, <=1) request kinds {two cacheable URLs, pass, error, restart, penalty box} with distinct markers is sent concurrently into ONE Interpreter, followed by 3 sequential probe requests; every schedule within the bound is executed and the vector (responses: flow, logs, headers, restarts, cached; probes: cache contents, rate counter, penalty box) must equal the vector of some one-at-a-time order on a fresh instance. plugin: 2-4 stub plugin processes on one statement (0/1/2 diagnostics, failing, garbage); on every schedule the reported diagnostics are exactly what the plugins returned. On every execution: no deadlock, no panic, no conflicting accesses at a read-modify-write site unordered by happens-before. Evidence reports schedules explored, choice points, scheduling points, threads, distinct outcomes per scenario.',
     'Trusts: the scheduler shim (one managed goroutine runs at a time; replay of the same choice sequence is checked to be deterministic); sequential consistency; code between two scheduling points is atomic. Unsynchronised accesses that are not read-modify-write statements are decided by their effect on the responses and, as auxiliary evidence only, by Go\'s race detector on a free-running build of the same scenario bodies (sampling, 15 repetitions per scenario).')
 
+
+# what the two seeded rounds added to each check's enumeration (appended to the level text)
+ADDENDA = {
+ 'C01': ' Extended after seeding: byte alphabet of 41 symbols incl. one representative per class of Go\'s unicode package (Nd digit, full-width digit, letter number, no-break space, line separator, BOM, full-width letter).',
+ 'C02': ' Extended after seeding: every non-default atom at every leaf of every depth-2 shape in the quick tier; literal non-ASCII strings and 0X hex floats in the literal table; the same label text under == and ~ in one switch.',
+ 'C03': ' Extended after seeding (shared grammar): long strings with runs of empty lines, nested / negated groups, ACL masks /0 /32 /128, functional return with parentheses, an empty-line decoration at every leading slot, 108 else-if programs sweeping the line end through columns 100-135.',
+ 'C04': ' Extended after seeding: 26 situations (two includes in both orders, nested include), an include-reachability parse in the reference that does not go through the linter, and -generated / -generated -json as modes.',
+ 'C06': ' Extended after seeding: every compiled vcl_hash appends req.url and req.http.host to req.hash (the key must be derived afresh on every attempt).',
+ 'C07': ' Extended after seeding: a wide-mask ACL family (/0, /1, byte-boundary masks); a reference-free position law (22 conditions x 6 positions must agree); 432 mixed-type arithmetic cells compared with a committed snapshot of the pinned tree (decides drift only).',
+ 'C08': ' Extended after seeding: non-recursive call graphs with exponential expansion; header values malformed as sub-field lists on every object and in request headers; 7 director types x member shapes x properties x selection place x return state.',
+ 'C09': ' Extended after seeding: 10 decorations (incl. /** c **/, /* c **/, /**/, multi-line), a 4th executable program with ID-typed arguments and directors, programs the parser rejects, annotated programs with a comment next to the annotation, a sign-gap family.',
+ 'C10': ' Extended after seeding: set-but-empty inputs, a shared fixture with merge-then-overwrite writer and merging reader, nested-if() leaves that read the capture inside the called subroutine (38 leaves).',
+ 'C11': ' Extended after seeding: functional subroutines with 0-2 parameters called with 0-3 arguments; 9 permuted programs incl. per-subroutine goto labels and locals.',
+ 'C12': ' Extended after seeding: 15 base programs (switch cases, late diagnostics, empty blocks), stacked next-line comments, ranges ending inside a later empty block.',
+ 'C13': ' Extended after seeding: unary operators composed with groups and if() in the quick tier, calls from a caller without capture groups, TIME +/- RTIME inside concatenations, declare-with-initialiser histories.',
+ 'C14': ' (Shares the extended grammar and decorations of C03.)',
+ 'C15': ' (Shares the extended grammar and decorations of C03; decorated programs are also run with return_statement_parenthesis=false.)',
+ 'C17': ' Extended after seeding: sub-field values with separators, values starting / ending with a line break, keys that differ in one punctuation character, cross-object histories (an operation on one object must not move another object\'s reads).',
+ 'C18': ' Extended after seeding: channel receive / send / close are owned by the scheduler (instrumenter rewrite, happens-before through channels); a progress backstop abandons an execution blocked in anything else; quick tier caps a scenario at 6000 executions (reported as not exhaustive); plugins on a compound statement with an ignored nested statement.',
+ 'C19': ' Extended after seeding: expression shapes x 8 contexts incl. if() with 2-3 composite operands; programs of 4-7 kB across the decoder\'s read-buffer boundary at every alignment.',
+ 'C20': ' Extended after seeding: 4 Terraform module layouts (items / service in child and grandchild modules); backend names that differ only in the length of a run of non-identifier characters, with a distinctness oracle.',
+}
 NOT_YET = {i: 'check not built yet in this session (design in DESIGN.md §4); will be claimed once its command exists' for i in ids if i not in CHECKS}
 
 m = {
@@ -139,7 +161,7 @@ for i, c in CHECKS.items():
       'evidence_file': f'/verif/evidence/{i}.json',
       'replay_cmd_template': 'bin/check replay {path}',
       'engine': 'choice+shard',
-      'level_claimed': {'category': c['cat'], 'text': c['text'], 'design_ref': c['ref']},
+      'level_claimed': {'category': c['cat'], 'text': c['text'] + ADDENDA.get(i, ''), 'design_ref': c['ref']},
       'level_note': c['note'],
       'technique': c['tech'],
     })
